@@ -47,4 +47,57 @@ theorem wfCheck_sound {g : GraphVal} (h : wfCheck g = true) : WF g := by
     have := h4 n hn
     simpa [hk, hp] using this
 
+/-! ### what the encoding theorems assume about the aggregated imports
+
+  `AggOk` is stated on the result of the model's own name-level aggregation
+  (`resolveInsts` + `resolveExplicit`); C03 (`canonical_kind`, `iface_named`) is where these
+  facts are established from properties of the graph alone. -/
+
+/-- the kind under which the import that `name` resolves to is imported -/
+def aggKind (agg : Agg) (name : Str) : Option Kind := (amGet agg.imports (agg.canonical name)).map (·.kind)
+
+structure AggOk (g : GraphVal) (agg : Agg) : Prop where
+  /-- import names are distinct (`IndexMap`) -/
+  keysNodup : (agg.imports.map (·.1)).Nodup
+  /-- an instance import of a named interface is imported under the name of the interface
+      (fails exactly for the shape of known finding `enc-explicit-interface-import-merged`,
+      and for an instance import superseded by a higher version of its interface) -/
+  ifaceNamed : ∀ e ∈ agg.imports, e.2.kind = .instance → e.2.iface = none ∨ e.2.iface = some e.1
+  /-- every unsatisfied argument resolves to an import of its own kind -/
+  implicitKind : ∀ n ∈ g.nodes, ∀ slot sat p, n.kind = .instantiation slot sat → g.pkg? slot = some p →
+    ∀ r ∈ unsatisfied p sat, aggKind agg r.name = some r.ty.kind
+  /-- every explicit import resolves to an import of its own kind -/
+  explicitKind : ∀ n ∈ g.nodes, ∀ nm, n.kind = .import nm → aggKind agg nm = some n.ty.kind
+
+def aggOkCheck (g : GraphVal) (agg : Agg) : Bool :=
+  decide (agg.imports.map (·.1)).Nodup &&
+  agg.imports.all (fun e => decide (e.2.kind = .instance → e.2.iface = none ∨ e.2.iface = some e.1)) &&
+  g.nodes.all (fun n => match n.kind with
+    | .instantiation slot sat => match g.pkg? slot with
+      | some p => (unsatisfied p sat).all fun r => decide (aggKind agg r.name = some r.ty.kind)
+      | none => true
+    | .import nm => decide (aggKind agg nm = some n.ty.kind)
+    | _ => true)
+
+theorem aggOkCheck_sound {g : GraphVal} {agg : Agg} (h : aggOkCheck g agg = true) : AggOk g agg := by
+  simp only [aggOkCheck, Bool.and_eq_true, decide_eq_true_eq, List.all_eq_true] at h
+  obtain ⟨⟨h1, h2⟩, h3⟩ := h
+  refine ⟨h1, fun e he => h2 e he, ?_, ?_⟩
+  · intro n hn slot sat p hk hp r hr
+    have := h3 n hn
+    simp only [hk, hp, List.all_eq_true, decide_eq_true_eq] at this
+    exact this r hr
+  · intro n hn nm hk
+    have := h3 n hn
+    simpa [hk] using this
+
+/-- the aggregation the model computes for `g` (when it succeeds) -/
+def aggOf (g : GraphVal) (importNodes : List Nat) : Option Agg :=
+  match resolveInsts g g.nodes {} with
+  | .ok r =>
+    match resolveExplicit g importNodes r.agg [] with
+    | .ok (agg, _) => some agg
+    | _ => none
+  | _ => none
+
 end Wac.Spec
